@@ -1091,6 +1091,38 @@ XercesDocumentWrapper::BuildWrapperTreeWalker::startNode(const DOMNodeType*     
 
     theWrapperNodeNavigator->setParentNode(theParentEntry.m_node);
 
+    if (node->getNodeType() == DOMNodeType::DOCUMENT_TYPE_NODE)
+    {
+        // The XPath data model has no document type node, so the wrapper
+        // node is built (getDoctype() and the entities need it), but it is
+        // not linked in as a child of the document or as a sibling of the
+        // other children: node(), preceding-sibling:: etc. must not see it.
+        // Push what endNode() expects to pop...
+        m_parentNavigatorStack.push_back(
+            NavigatorStackEntryType(theWrapperNodeNavigator, theWrapperNode));
+
+        m_siblingNavigatorStack.push_back(NavigatorStackEntryType(0, 0));
+
+        ++m_currentIndex;
+
+        const DOMDocumentType_Type* const   theDoctype =
+            static_cast<const DOMDocumentType_Type*>(node);
+
+        const DOMNamedNodeMapType* const    theEntities =
+            theDoctype->getEntities();
+
+        const XalanSize_t   theLength =
+            theEntities->getLength();
+
+        for (XalanSize_t i = 0; i < theLength; ++i)
+        {
+            // Build it, but don't index it...
+            m_document->createWrapperNode(theEntities->item(i), m_currentIndex++, true);
+        }
+
+        return false;
+    }
+
     // If the first child has not been set, then set it
     // now...
     if (theParentEntry.m_navigator->getFirstChild() == 0)
